@@ -956,12 +956,17 @@ pub fn gen_draw(rng: &mut Rng, w: i32, h: i32, cfg: &DrawCfg) -> Op {
             };
             Op::FillRect { rect, src: gen_source(rng, w, h, &cfg.sources), opts: gen_opts(rng, cfg.blend) }
         }
-        2 => Op::Stroke {
-            path: gen_path(rng, w, h, cfg.path),
-            src: gen_source(rng, w, h, &cfg.sources),
-            style: gen_stroke_style(rng, e),
-            opts: gen_opts(rng, cfg.blend),
-        },
+        2 => {
+            let path = gen_path(rng, w, h, cfg.path);
+            let src = gen_source(rng, w, h, &cfg.sources);
+            let mut style = gen_stroke_style(rng, e);
+            if path.segs.len() > 40 {
+                // a crowded path (dozens of subpaths) is stroked undashed: dashed, its thousands of
+                // edges on a handful of sample rows cost the rasteriser more than a minute
+                style.dash_array.clear();
+            }
+            Op::Stroke { path, src, style, opts: gen_opts(rng, cfg.blend) }
+        }
         3 => {
             let p = valid_pixel(rng);
             Op::Clear { argb: [(p >> 24) as u8, (p >> 16) as u8, (p >> 8) as u8, p as u8] }
